@@ -270,8 +270,15 @@ theorem setDelSlice_inv {s : St} (hI : Inv s) (g : Nat) (sl : Slice) :
             rw [ho'm, h5, hom]
 
 theorem setDelItem_inv {s : St} (hI : Inv s) (g : Nat) (i : Int) :
-    Inv (setDelItem s g i).1 ∧ ((setDelItem s g i).2 ≠ .ok → (setDelItem s g i).1 = s) :=
-  setDelSlice_inv hI g _
+    Inv (setDelItem s g i).1 ∧ ((setDelItem s g i).2 ≠ .ok → (setDelItem s g i).1 = s) := by
+  unfold setDelItem
+  split
+  · split
+    · exact ⟨hI, fun _ => rfl⟩
+    · split
+      · exact ⟨hI, fun _ => rfl⟩
+      · exact setDelSlice_inv hI g _
+  · exact ⟨hI, fun _ => rfl⟩
 
 /-! ### `for i in new_items: super().add(i)` -/
 
